@@ -7,6 +7,7 @@ from a fresh channel by ANY list of operations — atomic operations and the mic
 alike, any number of consumers, any timing inputs.
 -/
 import Nsq.Proofs.ChanHist
+import Nsq.Proofs.ChanInvOk
 namespace Nsq.Props.C02
 open Nsq.Model.Chan Nsq.Proofs.Chan
 
@@ -21,6 +22,11 @@ theorem reachable_inv {conf : Conf} {c : Chan} (h : Reachable conf c) : Inv 0 c 
 /-- the invariant is inductive: one more step from any state that satisfies it -/
 theorem inv_step (conf : Conf) {c : Chan} (h : Inv 0 c) (op : Op) : Inv 0 (step conf c op).1 :=
   step_inv conf h op
+
+/-- DESIGN 3.8 — the executable invariant the driver evaluates (`inv` lines; `rchan` lines rebuild a
+real state) holds in every reachable state: a state on which it fails is outside what is proved. -/
+theorem invOk_sound {conf : Conf} {c : Chan} (h : Reachable conf c) : invOk c = true :=
+  invOk_of_inv (reachable_inv h)
 
 /-- C02.1 — every message of the channel is in exactly one of: the queue (memory or disk), the
 in-flight set, the deferred set; no id occurs twice. (`msgs` holds each message once with its
